@@ -7,13 +7,17 @@
 (* to the spec's actions as the "fresh" parameters and must be unused.    *)
 (* Events: Cfg | remote | start | with | release | end, each with `cur` = *)
 (* <<trace rank, span rank>> of GetCurrentSpan() on every thread.         *)
+(* Ranks count over the WHOLE log (all programs, OS-thread generations    *)
+(* behind a model thread, forked children): `hi` = highest rank consumed  *)
+(* so far, never reset; a fresh id must outrank it, i.e. be distinct from *)
+(* every id that appeared anywhere earlier in the execution.              *)
 (***************************************************************************)
 EXTENDS SpanIdentity, IOUtils
 
 TraceLog == ndJsonDeserialize(IOEnv.TRACE)
 
-VARIABLES l, nexec, devAll
-tvars == <<vars, l, nexec, devAll>>
+VARIABLES l, nexec, devAll, hi
+tvars == <<vars, l, nexec, devAll, hi>>
 
 Ev == TraceLog[l]
 Is(e) == l <= Len(TraceLog) /\ Ev.e = e /\ l' = l + 1
@@ -23,18 +27,22 @@ CurOK == \A t \in Thr :
            /\ Ev.cur[t][1] = (IF a = 0 THEN 0 ELSE ents'[a].trace)
            /\ Ev.cur[t][2] = (IF a = 0 THEN 0 ELSE ents'[a].span)
 
-TInit == Init /\ l = 1 /\ nexec = 0 /\ devAll = {} /\ TLCSet(1, 0)
+Max(a, b) == IF a > b THEN a ELSE b
+TInit == Init /\ l = 1 /\ nexec = 0 /\ devAll = {} /\ hi = 0 /\ TLCSet(1, 0)
 
 TCfg == /\ Is("Cfg")
         /\ ents' = <<>> /\ stack' = [t \in Thr |-> <<>>] /\ nid' = 1 /\ ops' = 0 /\ nrem' = 0
         /\ devUsed' = {} /\ actor' = 0 /\ ls' = <<>> /\ lastop' = <<>> /\ hist' = <<>>
-        /\ nexec' = nexec + 1 /\ devAll' = devAll \cup devUsed
+        /\ nexec' = nexec + 1 /\ devAll' = devAll \cup devUsed /\ UNCHANGED hi
 
 TRemote == /\ Is("remote")
            /\ Ev.form \in {"valid", "nospan"} => (Ev.trace # 0 /\ Ev.trace \notin UsedIds)
            /\ Ev.form \in {"valid", "notrace"} => (Ev.span # 0 /\ Ev.span \notin UsedIds /\ Ev.span # Ev.trace)
            /\ MakeRemote(Ev.flags, Ev.ts, Ev.form, Ev.tcls, Ev.trace, Ev.span)
            /\ ents'[Len(ents')].trace = Ev.trace /\ ents'[Len(ents')].span = Ev.span
+           /\ Ev.trace # 0 => Ev.trace > hi
+           /\ Ev.span # 0 => Ev.span > hi
+           /\ hi' = Max(hi, Max(Ev.trace, Ev.span))
            /\ CurOK /\ UNCHANGED <<nexec, devAll>>
 
 TStart == /\ Is("start")
@@ -45,12 +53,13 @@ TStart == /\ Is("start")
              /\ (n.kind = "sdk") = Ev.got.rec
              /\ Ev.got.valid /\ ~Ev.got.remote
              \* fresh: a span id nobody had; without parent also a trace id nobody had
-             /\ n.span # 0 /\ n.span \notin UsedIds
-             /\ ls'.p = 0 => (n.trace # 0 /\ n.trace \notin UsedIds /\ n.trace # n.span)
+             /\ n.span # 0 /\ n.span \notin UsedIds /\ n.span > hi
+             /\ ls'.p = 0 => (n.trace # 0 /\ n.trace \notin UsedIds /\ n.trace # n.span /\ n.trace > hi)
+             /\ hi' = Max(hi, Max(n.trace, n.span))
           /\ CurOK /\ UNCHANGED <<nexec, devAll>>
 
-TWith == /\ Is("with") /\ WithActive(Ev.t, Ev.en) /\ CurOK /\ UNCHANGED <<nexec, devAll>>
-TRelease == /\ Is("release") /\ ReleaseScope(Ev.t) /\ CurOK /\ UNCHANGED <<nexec, devAll>>
+TWith == /\ Is("with") /\ WithActive(Ev.t, Ev.en) /\ CurOK /\ UNCHANGED <<nexec, devAll, hi>>
+TRelease == /\ Is("release") /\ ReleaseScope(Ev.t) /\ CurOK /\ UNCHANGED <<nexec, devAll, hi>>
 TEnd == /\ Is("end")
         /\ EndSpan(Ev.t, Ev.en)
         /\ LET x == ents'[Ev.en] IN
@@ -59,7 +68,7 @@ TEnd == /\ Is("end")
            /\ Ev.n \in {0, 1}
            /\ Ev.n = 1 => (Ev.trace = x.trace /\ Ev.parent = x.parent /\ Ev.flags = x.flags /\ Ev.ts = x.ts)
            /\ Ev.ctx[1] = x.trace /\ Ev.ctx[2] = x.span        \* still exposes the same context
-        /\ CurOK /\ UNCHANGED <<nexec, devAll>>
+        /\ CurOK /\ UNCHANGED <<nexec, devAll, hi>>
 
 TNext == TCfg \/ TRemote \/ TStart \/ TWith \/ TRelease \/ TEnd
 TSpec == TInit /\ [][TNext]_tvars
